@@ -238,7 +238,7 @@ public:
   void loc(const Stmt *S) {
     SourceLocation B = S->getBeginLoc();
     J.attribute("l", lineOf(B));
-    J.attribute("c", colOf(B));
+    J.attribute("cl", colOf(B));
   }
 
   // ----------------------------------------------------------- expressions
@@ -639,7 +639,7 @@ public:
     J.object([&] {
       J.attribute("k", "decl");
       J.attribute("l", lineOf(VD->getLocation()));
-      J.attribute("c", colOf(VD->getLocation()));
+      J.attribute("cl", colOf(VD->getLocation()));
       std::string M;
       if (VD->getLocation().isMacroID())
         M = macroStack(VD->getLocation());
